@@ -338,6 +338,41 @@ def build_decodecorpus():
     finally:
         fcntl.flock(lockf, fcntl.LOCK_UN); lockf.close()
 
+def build_cli():
+    """The real zstd command-line tool from /repo, its threads (async I/O pools, MT workers) running under simsched so that
+    the system-call sequence is a function of VERIF_SCHED_SEED; plus the ptrace supervisor and the library verdict helper."""
+    build('P')
+    os.makedirs(CACHE, exist_ok=True)
+    lockf = open(os.path.join(CACHE, '.lock-cli'), 'w'); fcntl.flock(lockf, fcntl.LOCK_EX)
+    try:
+        redirect = os.path.join(VERIF, 'sim/sched/sim_redirect.h')
+        incs = sum([['-I', os.path.join(REPO, i)] for i in INC + ['programs']], [])
+        flags = ['-O2', '-g', '-w'] + BASE_DEFS + ['-DZSTD_NOBENCH', '-DZSTD_NODICT', '-DBACKTRACE_ENABLE=0', '-include', redirect] + incs
+        progs = [os.path.join(REPO, 'programs', f) for f in ['zstdcli.c', 'fileio.c', 'fileio_asyncio.c', 'util.c', 'timefn.c', 'zstdcli_trace.c', 'lorem.c']]
+        infra = [os.path.join(VERIF, 'sim/core/core.c'), os.path.join(VERIF, 'sim/core/hooks.c'), os.path.join(VERIF, 'sim/sched/simsched.c'), os.path.join(VERIF, 'sim/alloc/simalloc.c')]
+        tools = [os.path.join(VERIF, 'cli/clisup.c'), os.path.join(VERIF, 'cli/zcheck.c')]
+        key = file_hash(repo_all_files() + glob.glob(os.path.join(REPO, 'programs/*')) + infra + tools + [redirect] + harness_all_files()[:0], ' '.join(flags))
+        cdir = os.path.join(CACHE, 'cli-%s' % key)
+        if not os.path.exists(os.path.join(cdir, '.done')):
+            t0 = time.time(); shutil.rmtree(cdir, ignore_errors=True); os.makedirs(cdir)
+            zlib = glob.glob(os.path.join(CACHE, 'z-P-*', 'libzstd_sim.a'))[0]
+            iflags = ['-O1', '-g'] + BASE_DEFS + ['-I', os.path.join(VERIF, 'sim'), '-I', os.path.join(VERIF, 'sim/core')] + incs + ['-DSIM_FLAVOUR="CLI"']
+            jobs = [(s, os.path.join(cdir, 'p_' + os.path.basename(s) + '.o'), flags) for s in progs] + [(s, os.path.join(cdir, 'i_' + os.path.basename(s) + '.o'), iflags) for s in infra]
+            errs = _compile_many(jobs)
+            if errs: raise BuildError('\n'.join(errs))
+            r = sh([CC, '-o', os.path.join(cdir, 'zstd')] + [j[1] for j in jobs] + [zlib, '-lpthread', '-lm', '-Wl,--wrap=malloc,--wrap=calloc,--wrap=realloc,--wrap=free'])
+            if r.returncode != 0: raise BuildError(r.stdout[-3000:])
+            r = sh([CC, '-O1', '-Wall', '-o', os.path.join(cdir, 'clisup'), os.path.join(VERIF, 'cli/clisup.c')])
+            if r.returncode != 0: raise BuildError(r.stdout[-3000:])
+            # verdict helper: plain library objects (no redirect needed: single-threaded use), default allocator
+            r = sh([CC, '-O1', '-w'] + BASE_DEFS + incs + ['-I', os.path.join(VERIF, 'sim'), '-I', os.path.join(VERIF, 'sim/core'), '-o', os.path.join(cdir, 'zcheck'), os.path.join(VERIF, 'cli/zcheck.c')] + [j[1] for j in jobs if '/i_' in j[1]] + [zlib, '-lpthread', '-lm', '-Wl,--wrap=malloc,--wrap=calloc,--wrap=realloc,--wrap=free'])
+            if r.returncode != 0: raise BuildError(r.stdout[-3000:])
+            open(os.path.join(cdir, '.done'), 'w').write('ok'); _evict('cli-', os.path.basename(cdir))
+            log('[build] CLI flavour (zstd under simsched + clisup + zcheck): %.1fs' % (time.time() - t0))
+        return cdir
+    finally:
+        fcntl.flock(lockf, fcntl.LOCK_UN); lockf.close()
+
 CORPUS_ROOT = os.path.join(CACHE, 'corpus')
 def ensure_corpus(seed, n):
     """Deterministic corpus of n spec-valid frames for a seed (files z%06d.zst); regenerated on demand, e.g. for replays."""
